@@ -80,6 +80,9 @@ type SOp struct {
 	// observations
 	Now int64  `json:"now"`
 	Obs string `json:"obs"`
+	// Bad: what is wrong with this operation's answer by itself (set by applySOp): e.g. a peer
+	// listed with a record that is not the record the store holds for it
+	Bad string `json:"bad,omitempty"`
 }
 
 func errEnum(err error) string {
@@ -155,6 +158,12 @@ func applySOp(st *openStore, t *interner, o *SOp) (opCoq, obsCoq, proj string) {
 			ids := make([]string, len(r))
 			for i, n := range r {
 				ids[i] = string(n.ID)
+				// every peer comes back as the record the store holds for it
+				if rec, gerr := st.GetNode(n.ID); gerr == nil && o.Bad == "" {
+					if rec.URI != n.URI || rec.Kind != n.Kind || rec.IsHost != n.IsHost || rec.Payout != n.Payout || rec.BlockNumber != n.BlockNumber || !rec.LastSeen.Equal(n.LastSeen) {
+						o.Bad = fmt.Sprintf("c12-peer-record: ActiveHosts(%s) lists node %s as host=%v kind=%q uri=%q payout=%q block=%d; the store's record of that node says host=%v kind=%q uri=%q payout=%q block=%d", shortID(o.ID), shortID(string(n.ID)), n.IsHost, n.Kind, n.URI, n.Payout, n.BlockNumber, rec.IsHost, rec.Kind, rec.URI, rec.Payout, rec.BlockNumber)
+					}
+				}
 			}
 			obsCoq = "(ONodes " + t.idsCoq(ids) + ")"
 			proj = fmt.Sprintf("hosts:%d", len(ids))
@@ -168,6 +177,12 @@ func applySOp(st *openStore, t *interner, o *SOp) (opCoq, obsCoq, proj string) {
 			ids := make([]string, len(r))
 			for i, n := range r {
 				ids[i] = string(n.ID)
+				// every peer comes back as the record the store holds for it
+				if rec, gerr := st.GetNode(n.ID); gerr == nil && o.Bad == "" {
+					if rec.URI != n.URI || rec.Kind != n.Kind || rec.IsHost != n.IsHost || rec.Payout != n.Payout || rec.BlockNumber != n.BlockNumber || !rec.LastSeen.Equal(n.LastSeen) {
+						o.Bad = fmt.Sprintf("c12-peer-record: NodePeers(%s) lists peer %s as host=%v kind=%q uri=%q payout=%q block=%d; the store's record of that node says host=%v kind=%q uri=%q payout=%q block=%d", shortID(o.ID), shortID(string(n.ID)), n.IsHost, n.Kind, n.URI, n.Payout, n.BlockNumber, rec.IsHost, rec.Kind, rec.URI, rec.Payout, rec.BlockNumber)
+					}
+				}
 			}
 			obsCoq = "(ONodes " + t.idsCoq(ids) + ")"
 			sort.Strings(ids)
